@@ -235,7 +235,14 @@ def run_behaviour(beh):
                     cs.add_change(change_mod.ChangeContents(res, new))
                     project.do(cs)
                 elif op == "rename":
-                    changes = rename_mod.Rename(project, res, beh["off"] + len(prefix)).get_changes(
+                    # the request: rename the identifier bound on the first "def" line.  Its offset
+                    # comes from the spec when rope's text is the spec's text; when rope decoded the
+                    # file differently (noted as ReadText) it is the first occurrence in rope's text
+                    if t0[len(prefix):] == beh["text0"]:
+                        off = beh["off"] + len(prefix)
+                    else:
+                        off = t0.find("old")
+                    changes = rename_mod.Rename(project, res, off).get_changes(
                         NEW_NAMES[beh["act"]["name"]])
                     for c in changes.changes:
                         if getattr(c, "resource", None) == res and hasattr(c, "new_contents"):
@@ -256,7 +263,7 @@ def run_behaviour(beh):
                 obs["read1"] = project.get_file("m.py").read()
             except Exception as e:  # noqa
                 obs["read1_exc"] = "%s: %s" % (type(e).__name__, str(e)[:200])
-            if beh["undone"] and obs["exc"] is None:
+            if beh["undone"] and obs["exc"] is None and len(project.history.undo_list) > 0:
                 try:
                     if reopen:
                         project.close()
@@ -339,7 +346,9 @@ def judge(beh, obs, prefix):
         elif strip(obs["read1"]) != beh["text1"]:
             notes.append("ReadText")
         if beh["undone"]:
-            if obs["undo_exc"] is not None:
+            if obs["bytes2"] is None and obs["undo_exc"] is None:
+                fails.append(("UndoRestores", "nothing-to-undo"))
+            elif obs["undo_exc"] is not None:
                 fails.append(("UndoRestores", obs["undo_exc_type"]))
             else:
                 d2 = diff_class(obs["bytes2"], beh["bytes2"])
